@@ -363,6 +363,23 @@ def run_cache(col):
             bad = _same_cached(it, got, reg)
             col.add("C06.O7", "Region.%s after another region was built with the same element object" % how,
                     "the basis arrays of a region are those of its own quadrature rule, whatever other region used the element in between", not bad, "%s: arrays %s belong to the other region's rule" % (w, bad))
+        # the region's public attributes are its inputs: after the rule (same number of points, other points and weights) or the element was
+        # exchanged on the region, reload() / copy() give the region a fresh construction from (mesh, element, quadrature) gives -- no basis
+        # array of the former rule survives next to the new weights
+        qd3 = QPoints(nq, d)
+        qd3.points = list(reversed(qd.points))
+        qd3.weights = symarray("w3", (nq,), positive=True)
+        el3 = OpaqueElement(na, d, nq)
+        el3.H, el3.D, el3.H2 = symarray("G", (na, nq)), el3.D * 3, el3.H2 * 5
+        for what, (e_, q_) in (("quadrature", (el, qd3)), ("element", (el3, qd))):
+            fresh3 = it.call(cls, [micro.FakeMesh(mesh.cells.tolist(), mesh.npoints, d), e_, q_], dict(grad=True, hess=True))
+            for how in ("reload()", "copy()"):
+                r3 = it.call(cls, [micro.FakeMesh(mesh.cells.tolist(), mesh.npoints, d), el, qd], dict(grad=True, hess=True))
+                it.setattr(r3, what, q_ if what == "quadrature" else e_)
+                got = it.call_method(r3, "copy", []) if how == "copy()" else (it.call_method(r3, "reload", []), r3)[1]
+                bad = _same_cached(it, got, fresh3)
+                col.add("C06.O7", "Region.%s after region.%s was exchanged" % (how, what),
+                        "every cached array is re-evaluated from the region's current mesh, element and quadrature (equal to a region created from them)", not bad, "%s: stale arrays %s" % (w, bad))
     finally:
         ring.ORDER_ORACLE[0] = None
     finish_info(col, it)
